@@ -169,6 +169,25 @@ func (g *G) WideTree(maxDepth, maxFan int) *xdoc.Doc {
 	return d.Finish()
 }
 
+// NameLikeTree: a random tree in which most text and comment nodes carry an ELEMENT NAME as their data, under a
+// navigator that reports this data as LocalName() (xmlquery/htmlquery behaviour): a name test that forgets the
+// node-type check selects them.
+func (g *G) NameLikeTree(names []string) *xdoc.Doc {
+	o := DefaultTree()
+	o.Names = names
+	d := g.Tree(o)
+	d.DataAsName = true
+	for _, n := range d.Nodes {
+		if (n.Kind == xdoc.Text || n.Kind == xdoc.Comment) && g.Chance(0.7) {
+			n.Data = names[g.R.Intn(len(names))]
+		}
+		if n.Kind == xdoc.Attr && g.Chance(0.3) {
+			n.Data = n.Name // an attribute whose value is its own name
+		}
+	}
+	return d
+}
+
 // DeepTree generates narrow, deep documents: a spine of 10-33 nested elements (names repeat along it) with
 // occasional leaf siblings, text, comments and attributes. Depth-indexed state of the engine (per-level
 // counters, recursion, ancestor walks) is only exercised when matches occur 8, 16, 24 ... levels below a step.
